@@ -110,6 +110,15 @@ def run(chk):
                 chk.notes.append("real-thread run under -fsanitize=thread not performed: %r" % (e,))
     from areas import mem_tie
     mem_tie.tie_run(chk)
+    broken = chk.mismatches or chk.build_problems or any(not ok for ok, _ in chk.theorems.values())
+    if broken and not chk.oracle_failures:
+        # the SC interleavings explored above show no failing schedule (or the harness could not
+        # be built against this source): the difference may be one the SC model cannot exhibit (a
+        # weakened memory order).  Search on real threads under ThreadSanitizer.
+        try:
+            conc.tsan_search(chk)
+        except Exception as e:
+            chk.notes.append("real-thread directed search not performed: %r" % (e,))
     return chk.finish(assumptions=[
         "C11 DRF-SC: the theorems are about sequentially consistent interleavings of the atomic steps; "
         "all atomics in memory.c are seq_cst and the model is proved race-free, so real executions are SC (trusted)",
@@ -120,6 +129,17 @@ def run(chk):
 
 def replay(path):
     r = json.load(open(path))
+    if r.get("area") == "conc_tsan":
+        exe, err = conc.tsan_build()
+        if exe is None:
+            print("TSan build failed:", err)
+            return 2
+        lines, report, _ = conc.tsan_exec(exe, r["ops"])
+        print("\n".join(lines))
+        print(report[:3000])
+        w = conc.tsan_judge(r["ops"], lines, report)
+        print("oracle:", w or "property holds on this input (races are schedule dependent: repeat the run)")
+        return 1 if w else 0
     chk = vlib.Check("C06", "quick", 0)
     c_exe, m_exe = vlib.prepare_area(chk, conc, theorems=[])
     ops = r.get("ops") or r.get("detail", {}).get("minimised") or r.get("detail", {}).get("script")
